@@ -40,6 +40,7 @@ type FuncContract struct {
 	LoopInv   map[int][]*Clause
 	LoopDec   map[int]*Clause
 	LoopMod   map[int][]ast.Expr
+	LoopLets  map[int][]*LetDef
 	Asserts   []*Clause
 	Ghosts    []*Clause
 	Extern    bool
@@ -56,6 +57,7 @@ type FuncContract struct {
 	Binds     map[string]string // name -> program point (value returned by the call there)
 	Dispatch  []string          // interface method contracts: concrete implementations tried first
 	Releases  []ast.Expr        // slices whose region is handed back (BufferPool.Put)
+	AllocBound ast.Expr         // C07: every make/append-growth in this function allocates at most this many elements
 }
 
 type LetDef struct {
@@ -164,7 +166,7 @@ func (db *ContractDB) loadFile(path string, extern bool) error {
 		}
 		switch {
 		case word == "func":
-			cur = &FuncContract{Name: rest, LoopInv: map[int][]*Clause{}, LoopDec: map[int]*Clause{}, LoopMod: map[int][]ast.Expr{}, Line: ln, File: path, Extern: extern}
+			cur = &FuncContract{Name: rest, LoopInv: map[int][]*Clause{}, LoopDec: map[int]*Clause{}, LoopMod: map[int][]ast.Expr{}, LoopLets: map[int][]*LetDef{}, Line: ln, File: path, Extern: extern}
 			if _, dup := db.Funcs[rest]; dup {
 				return fmt.Errorf("%s:%d: duplicate contract for %s", path, ln, rest)
 			}
@@ -293,6 +295,12 @@ func (db *ContractDB) loadFile(path string, extern bool) error {
 				}
 				cur.ModExprs = append(cur.ModExprs, x)
 			}
+		case word == "allocbound":
+			x, err := parseExprAt(rest, path, ln)
+			if err != nil {
+				return err
+			}
+			cur.AllocBound = x
 		case word == "releases":
 			x, err := parseExprAt(rest, path, ln)
 			if err != nil {
@@ -344,6 +352,19 @@ func (db *ContractDB) loadFile(path string, extern bool) error {
 			n, err := strconv.Atoi(f[0])
 			if err != nil || len(f) < 2 {
 				return fmt.Errorf("%s:%d: bad loop clause", path, ln)
+			}
+			if lt := strings.TrimSpace(f[1]); strings.HasPrefix(lt, "let ") {
+				// loop N let name := expr   (evaluated at the loop head of each iteration)
+				i := strings.Index(lt, ":=")
+				if i < 0 {
+					return fmt.Errorf("%s:%d: bad loop let", path, ln)
+				}
+				x, err := parseExprAt(strings.TrimSpace(lt[i+2:]), path, ln)
+				if err != nil {
+					return err
+				}
+				cur.LoopLets[n] = append(cur.LoopLets[n], &LetDef{Name: strings.TrimSpace(lt[4:i]), Expr: x})
+				continue
 			}
 			m := reLabel.FindStringSubmatch(strings.TrimSpace(f[1]))
 			if m == nil {
